@@ -66,7 +66,7 @@ def rand_summary(rng, valid=True):
         s["high_%s_classes" % pre] = hi
         s["medium_%s_classes" % pre] = med
     if not valid:
-        k = rng.randint(0, 6)
+        k = rng.randint(0, 10)
         if k == 0:
             s["average_complexity"] = -1.5
         elif k == 1:
@@ -85,9 +85,19 @@ def rand_summary(rng, valid=True):
             s["lcom_classes"] = 2
             s["high_lcom_classes"] = 2
             s["medium_lcom_classes"] = 1
-        else:
+        elif k == 6:
             s["cbo_classes"] = 2
             s["high_coupling_classes"] = 3
+        else:
+            # every rejection of Validate for the two class families: high alone, medium alone, only the sum
+            pre, cl = (("coupling", "cbo_classes"), ("lcom", "lcom_classes"))[k % 2]
+            tot = rng.choice([1, 2, 5, 30])
+            s[cl] = tot
+            hi, med = {7: (tot + 1, 0), 8: (0, tot + rng.randint(1, 3)), 9: (tot, 1), 10: ((tot + 1) // 2, tot // 2 + 1)}[k]
+            if k == 8 and rng.random() < 0.5:
+                pre, cl2 = (("coupling", "cbo_classes"), ("lcom", "lcom_classes"))[rng.randrange(2)]
+                s[cl2] = tot
+            s["high_%s_classes" % pre], s["medium_%s_classes" % pre] = hi, med
     return s
 
 
